@@ -312,9 +312,32 @@ func init() {
 						if len(s) >= n {
 							parse(p, []byte(s[:n]), 0)
 						}
+						// the same length reached with a form prefix that some parsers strip before matching
+						for _, pre := range []string{"v", "urn:uuid:", " ", "\""} {
+							if n > len(pre) {
+								x := append([]byte(pre), in[:n-len(pre)]...)
+								for r := 0; r < p.rules; r++ {
+									parse(p, x, r)
+								}
+							}
+						}
 					}
 				}
 				d.S.Boundary()
+			}
+			// (1b) every position of every seed replaced by bytes outside ASCII and by NUL
+			setMax(p, p.def)
+			for _, seed := range p.seeds {
+				for pos := 0; pos < len(seed); pos++ {
+					if !d.Mine(pos) {
+						continue
+					}
+					for _, c := range []byte{0x00, 0x7f, 0x80, 0xa0, 0xc3, 0xff} {
+						b := []byte(seed)
+						b[pos] = c
+						parse(p, b, d.R.Intn(p.rules))
+					}
+				}
 			}
 			// (2) fuzz under the default limit and with the limit off
 			for _, max := range []int{p.def, 0} {
